@@ -1,6 +1,7 @@
 import NetVerif.Model.StreamLimits
 import NetVerif.Gen.C21
 import NetVerif.Model.StreamWire
+import NetVerif.Model.ConnStreams
 /-!
 C21 — QUIC stream-count limits are never exceeded.
 
@@ -441,6 +442,471 @@ theorem sent_limit_holds_partial (cfg : Int) (ops : List ROp) (n : Int)
     · intro h
       apply Classical.byContradiction; intro hn
       exact hex ⟨hu, h, by omega⟩
+
+/-! ## the stream table of conn_streams.go (model `Model/ConnStreams.lean`) -/
+
+section Table
+open NetVerif.Model.ConnStreams
+
+theorem mum_fields (r : Remote) : r.maybeUpdateMax.opened = r.opened ∧ r.maybeUpdateMax.closed = r.closed ∧
+    r.maybeUpdateMax.maxOpen = r.maxOpen := by
+  unfold Remote.maybeUpdateMax; split <;> simp
+
+theorem open_fields (r : Remote) (n : Int) :
+    (r.open n).1.closed = r.closed ∧ (r.open n).1.maxOpen = r.maxOpen ∧
+    ((r.open n).2 = true → r.opened ≤ n → (r.open n).1.opened = n + 1) ∧
+    (n < r.opened → (r.open n).1.opened = r.opened) := by
+  unfold Remote.open
+  split
+  · exact ⟨rfl, rfl, by simp, fun _ => rfl⟩
+  · split
+    · have := mum_fields ({ r with opened := n + 1 } : Remote)
+      exact ⟨this.2.1, this.2.2, fun _ _ => this.1, fun h => by omega⟩
+    · exact ⟨rfl, rfl, fun _ h => by omega, fun _ => rfl⟩
+
+theorem close_fields (r : Remote) : r.close.opened = r.opened ∧ r.close.closed = r.closed + 1 := by
+  have := mum_fields ({ r with closed := r.closed + 1 } : Remote)
+  exact ⟨this.1, this.2.1⟩
+
+def pcount (tab : List Entry) : Int := (tab.filter (·.peer)).length
+def pnums (tab : List Entry) : List Int := (tab.filter (·.peer)).map (·.num)
+
+/-- Invariant tying the table to the counters. -/
+structure CInv (c : CS) : Prop where
+  rinv : RInv c.rem
+  linv : LInv c.loc
+  nodup : (pnums c.tab).Nodup
+  peerLt : ∀ n ∈ pnums c.tab, 0 ≤ n ∧ n < c.rem.opened
+  count : pcount c.tab = c.rem.opened - c.rem.closed
+
+theorem cinv_init (uni : Bool) (maxOpen : Int) (h : 0 ≤ maxOpen) : CInv (CS.init uni maxOpen) :=
+  ⟨remote_inv_init maxOpen h, local_inv_init, by simp [CS.init, pnums], by simp [CS.init, pnums],
+   by simp [CS.init, pcount, Remote.init]⟩
+
+private theorem implicit_mem (n : Int) : ∀ (k : Nat) (lo : Int), n ∈ pnums (implicitEntries lo k) ↔ (lo ≤ n ∧ n < lo + k)
+  | 0, lo => by simp [pnums, implicitEntries]
+  | k + 1, lo => by
+    have ih := implicit_mem n k (lo + 1)
+    simp only [pnums, implicitEntries, List.filter_cons, List.map_cons, if_true, List.mem_cons] at ih ⊢
+    rw [ih]; push_cast; omega
+
+private theorem implicit_nodup : ∀ (k : Nat) (lo : Int), (pnums (implicitEntries lo k)).Nodup
+  | 0, lo => by simp [pnums, implicitEntries]
+  | k + 1, lo => by
+    have ih := implicit_nodup k (lo + 1)
+    have hm := implicit_mem lo k (lo + 1)
+    simp only [pnums, implicitEntries, List.filter_cons, List.map_cons, if_true] at ih hm ⊢
+    exact List.nodup_cons.2 ⟨by rw [hm]; omega, ih⟩
+
+private theorem implicit_count : ∀ (k : Nat) (lo : Int), pcount (implicitEntries lo k) = k
+  | 0, lo => by simp [pcount, implicitEntries]
+  | k + 1, lo => by
+    have ih := implicit_count k (lo + 1)
+    simp only [pcount, implicitEntries, List.filter_cons, if_true, List.length_cons] at ih ⊢
+    push_cast at ih ⊢; omega
+
+private theorem pcount_append (a b : List Entry) : pcount (a ++ b) = pcount a + pcount b := by
+  simp [pcount, List.filter_append]
+
+private theorem pnums_append (a b : List Entry) : pnums (a ++ b) = pnums a ++ pnums b := by
+  simp [pnums, List.filter_append]
+
+private theorem pcount_eq_len (tab : List Entry) : pcount tab = (pnums tab).length := by simp [pcount, pnums]
+
+private theorem find_some {tab : List Entry} {p : Bool} {n : Int} {e : Entry} (h : find tab p n = some e) :
+    e ∈ tab ∧ e.peer = p ∧ e.num = n := by
+  unfold find at h
+  have h1 := List.mem_of_find?_eq_some h
+  have h2 := List.find?_some h
+  simp at h2
+  exact ⟨h1, h2.1, h2.2⟩
+
+private theorem find_none {tab : List Entry} {p : Bool} {n : Int} (h : find tab p n = none) :
+    ∀ e ∈ tab, ¬ (e.peer = p ∧ e.num = n) := by
+  unfold find at h
+  intro e he hc
+  have := List.find?_eq_none.1 h e he
+  simp [hc.1, hc.2] at this
+
+/-- **`over_limit_iff_error`**: in every state satisfying the invariant, a frame for the peer's
+stream number `num` is answered with STREAM_LIMIT_ERROR exactly when `num` is at or beyond the
+limit (`lim.max`); all other outcomes (new stream, existing stream, already closed) have `num < max`. -/
+theorem over_limit_iff_error (c : CS) (h : CInv c) (num : Int) :
+    (c.peerFrame num).2 = FrameRes.limitError ↔ num ≥ c.rem.max := by
+  have hom := h.rinv.opened_le_max
+  unfold CS.peerFrame
+  cases hf : find c.tab true num with
+  | some e =>
+    obtain ⟨he, hp, hn⟩ := find_some hf
+    have : num ∈ pnums c.tab := by
+      simp only [pnums, List.mem_map, List.mem_filter]
+      exact ⟨e, ⟨he, by simp [hp]⟩, hn⟩
+    have := (h.peerLt num this).2
+    simp only
+    split <;> simp <;> omega
+  | none =>
+    simp only
+    split
+    · simp; omega
+    · have hiff := remote_open_error_iff c.rem num
+      split
+      · rename_i hr; simp; exact hiff.1 hr
+      · rename_i hr
+        simp
+        have : ¬ num ≥ c.rem.max := fun hh => hr (hiff.2 hh)
+        omega
+
+theorem finish_rem (c : CS) (p : Bool) (n : Int) (d : Bool) :
+    (c.finish p n d).rem = c.rem ∨ ((c.finish p n d).rem = c.rem.close ∧ p = true) := by
+  unfold CS.finish
+  cases find c.tab p n with
+  | none => exact Or.inl rfl
+  | some e =>
+    simp only
+    by_cases h1 : (!e.real) = true
+    · simp [h1]
+    · simp only [h1]
+      by_cases h2 : ((markDone e d).inDone && (markDone e d).outDone) = true
+      · simp only [h2, if_true]; cases p <;> simp
+      · simp only [h2]; simp
+
+/-- **`sent_max_streams_monotone`**: no operation lowers the limit we advertise. -/
+theorem sent_max_streams_monotone (c : CS) (op : Op) : c.rem.max ≤ (c.step op).rem.max := by
+  cases op with
+  | peerFrame n =>
+    simp only [CS.step, CS.peerFrame]
+    split
+    · split
+      · exact Int.le_refl _
+      · exact remote_max_mono_step c.rem (.open n)
+    · split
+      · exact Int.le_refl _
+      · split
+        · exact Int.le_refl _
+        · exact remote_max_mono_step c.rem (.open n)
+  | localFrame n => simp only [CS.step, CS.localFrame]; split <;> exact Int.le_refl _
+  | newLocal => simp only [CS.step, CS.newLocal]; split <;> exact Int.le_refl _
+  | peerMax v => exact Int.le_refl _
+  | finish p n d =>
+    simp only [CS.step]
+    rcases finish_rem c p n d with h | ⟨h, _⟩
+    · rw [h]; exact Int.le_refl _
+    · rw [h]; exact remote_max_mono_step c.rem .close
+  | sendMax => exact remote_max_mono_step c.rem .appendFrame
+
+theorem local_open_ok_of_inv (l : Local) (hi : LInv l) (n : Int) (hok : l.open.2 = OpenRes.ok n) :
+    n < l.max ∧ n = l.opened := by
+  obtain ⟨mx, op', g⟩ := l
+  obtain ⟨hg, h0, h1, h2⟩ := hi
+  simp only [gateCond] at hg h0 h1 h2
+  unfold Local.open at hok
+  cases g
+  · simp at hok
+  · have hlt : op' < mx := by simpa using hg.symm
+    simp only at hok
+    split at hok
+    · simp at hok
+    · simp [Local.unlock] at hok
+      simp only; omega
+
+/-- **`local_open_below_peer_limit`**: a locally opened stream gets the next number, and it is
+below the largest MAX_STREAMS received (`loc.max`, which `peerMax` only ever raises). -/
+theorem local_open_below_peer_limit (c : CS) (h : CInv c) (n : Int) (hok : c.newLocal.2 = OpenRes.ok n) :
+    n < c.loc.max ∧ n = c.loc.opened ∧ (∀ v, c.loc.max ≤ (c.peerMax v).loc.max ∧ v ≤ (c.peerMax v).loc.max) := by
+  have hok' : c.loc.open.2 = OpenRes.ok n := by
+    unfold CS.newLocal at hok
+    simp only at hok
+    cases hr : c.loc.open.2 with
+    | ok m => rw [hr] at hok; simpa using hok
+    | blocked => rw [hr] at hok; simp at hok
+    | closed => rw [hr] at hok; simp at hok
+  obtain ⟨a, b⟩ := local_open_ok_of_inv c.loc h.linv n hok'
+  refine ⟨a, b, fun v => ?_⟩
+  simp only [CS.peerMax, Local.setMax, Local.unlock]
+  omega
+
+/-- **`implicit_open_counts_all`**: a frame that opens the peer's stream `num` (not seen before)
+accounts for every lower-numbered stream that was not yet opened: `opened` becomes `num + 1` and
+each number in `[opened, num]` is in the stream table afterwards. -/
+theorem implicit_open_counts_all (c : CS) (h : CInv c) (num : Int) (hnew : c.rem.opened ≤ num)
+    (hok : (c.peerFrame num).2 = FrameRes.stream) :
+    (c.peerFrame num).1.rem.opened = num + 1 ∧
+    ∀ n, c.rem.opened ≤ n → n ≤ num → n ∈ pnums (c.peerFrame num).1.tab := by
+  unfold CS.peerFrame at hok ⊢
+  cases hf : find c.tab true num with
+  | some e =>
+    obtain ⟨he, hp, hn⟩ := find_some hf
+    have : num ∈ pnums c.tab := by
+      simp only [pnums, List.mem_map, List.mem_filter]
+      exact ⟨e, ⟨he, by simp [hp]⟩, hn⟩
+    have := (h.peerLt num this).2
+    omega
+  | none =>
+    rw [hf] at hok
+    simp only at hok ⊢
+    have h1 : ¬ num < c.rem.opened := by omega
+    simp only [h1, if_false] at hok ⊢
+    split at hok
+    · simp at hok
+    · rename_i hr
+      simp only [hr, if_false]
+      have hr' : (c.rem.open num).2 = true := by simpa using hr
+      refine ⟨(open_fields c.rem num).2.2.1 hr' hnew, ?_⟩
+      intro n hn1 hn2
+      rw [if_neg (by simp)]
+      simp only
+      rw [pnums_append, pnums_append]
+      by_cases hlast : n = num
+      · subst hlast
+        simp [pnums, newPeerStream]
+      · apply List.mem_append_left
+        apply List.mem_append_right
+        rw [implicit_mem]
+        omega
+
+private theorem pnums_map (tab : List Entry) (f : Entry → Entry) (hf : ∀ x, (f x).peer = x.peer ∧ (f x).num = x.num) :
+    pnums (tab.map f) = pnums tab := by
+  induction tab with
+  | nil => rfl
+  | cons x xs ih =>
+    simp only [pnums, List.map_cons, List.filter_cons, (hf x).1] at ih ⊢
+    split
+    · simp only [List.map_cons, (hf x).2, ih]
+    · exact ih
+
+private theorem pnums_filter_local (tab : List Entry) (n : Int) :
+    pnums (tab.filter fun x => !(x.peer == false && x.num == n)) = pnums tab := by
+  induction tab with
+  | nil => rfl
+  | cons x xs ih =>
+    simp only [pnums, List.filter_cons] at ih ⊢
+    cases hp : x.peer <;> simp [hp] at ih ⊢
+    · split <;> simp [hp, ih]
+    · exact ih
+
+private theorem pnums_filter_peer (tab : List Entry) (n : Int) :
+    pnums (tab.filter fun x => !(x.peer == true && x.num == n)) = (pnums tab).filter (fun m => m != n) := by
+  induction tab with
+  | nil => rfl
+  | cons x xs ih =>
+    simp only [pnums, List.filter_cons] at ih ⊢
+    cases hp : x.peer <;> simp [hp] at ih ⊢
+    · exact ih
+    · by_cases hn : x.num = n
+      · simp [hn, ih]
+      · simp [hn, hp, ih]
+
+private theorem length_filter_ne (l : List Int) (n : Int) (hnd : l.Nodup) (hm : n ∈ l) :
+    ((l.filter (fun m => m != n)).length : Int) = l.length - 1 := by
+  induction l with
+  | nil => simp at hm
+  | cons x xs ih =>
+    obtain ⟨hx, hxs⟩ := List.nodup_cons.1 hnd
+    by_cases hxn : x = n
+    · subst hxn
+      have : xs.filter (fun m => m != x) = xs := by
+        apply List.filter_eq_self.2
+        intro a ha; simp; intro h; subst h; exact hx ha
+      simp [this]
+    · have hm' : n ∈ xs := by
+        rcases List.mem_cons.1 hm with h | h
+        · exact absurd h.symm hxn
+        · exact h
+      have := ih hxs hm'
+      simp [hxn, List.filter_cons] at this ⊢
+      omega
+
+private theorem open_noop (r : Remote) (n : Int) (h1 : n < r.opened) (h2 : r.opened ≤ r.max) : (r.open n).1 = r := by
+  unfold Remote.open
+  split
+  · rfl
+  · split
+    · omega
+    · rfl
+
+private theorem mem_pnums_of_find {tab : List Entry} {n : Int} {e : Entry} (hf : find tab true n = some e) : n ∈ pnums tab := by
+  obtain ⟨he, hp, hn⟩ := find_some hf
+  simp only [pnums, List.mem_map, List.mem_filter]
+  exact ⟨e, ⟨he, by simp [hp]⟩, hn⟩
+
+theorem cinv_step (c : CS) (op : Op) (h : CInv c) : CInv (c.step op) := by
+  obtain ⟨hr, hl, hnd, hlt, hcnt⟩ := h
+  cases op with
+  | peerFrame n =>
+    simp only [CS.step, CS.peerFrame]
+    cases hf : find c.tab true n with
+    | some e =>
+      simp only
+      split
+      · exact ⟨hr, hl, hnd, hlt, hcnt⟩
+      · have hm := mem_pnums_of_find hf
+        have hno := open_noop c.rem n (hlt n hm).2 hr.opened_le_max
+        have hpm := pnums_map c.tab (fun x => if (x.peer == true && x.num == n) = true then newPeerStream c.uni n else x)
+          (by intro x; by_cases hx : (x.peer == true && x.num == n) = true
+              · rw [if_pos hx]; simp only [newPeerStream]; simp at hx; exact ⟨hx.1.symm, hx.2.symm⟩
+              · rw [if_neg hx]; exact ⟨rfl, rfl⟩)
+        refine ⟨by simp only [hno]; exact hr, hl, by simp only [hpm]; exact hnd, by simp only [hpm, hno]; exact hlt, ?_⟩
+        simp only [pcount_eq_len, hpm, hno]
+        rw [← pcount_eq_len]; exact hcnt
+    | none =>
+      simp only
+      split
+      · exact ⟨hr, hl, hnd, hlt, hcnt⟩
+      · rename_i hge
+        split
+        · exact ⟨hr, hl, hnd, hlt, hcnt⟩
+        · rename_i hok
+          have hok' : (c.rem.open n).2 = true := by simpa using hok
+          obtain ⟨f1, f2, f3, _⟩ := open_fields c.rem n
+          have hop := f3 hok' (by omega)
+          have hr' := remote_inv_step c.rem (.open n) hr
+          simp only [Remote.step] at hr'
+          have hk : ((n - c.rem.opened).toNat : Int) = n - c.rem.opened := by omega
+          refine ⟨hr', hl, ?_, ?_, ?_⟩
+          · simp only [pnums_append]
+            have hnew : pnums [newPeerStream c.uni n] = [n] := by simp [pnums, newPeerStream]
+            rw [hnew]
+            refine List.nodup_append.2 ⟨List.nodup_append.2 ⟨hnd, implicit_nodup _ _, ?_⟩, by simp, ?_⟩
+            · intro a ha b hb hab; subst hab
+              have := (hlt a ha).2
+              have := (implicit_mem a _ _).1 hb
+              omega
+            · intro a ha b hb hab; subst hab
+              simp at hb; subst hb
+              rcases List.mem_append.1 ha with ha | ha
+              · have := (hlt a ha).2; omega
+              · have := (implicit_mem a _ _).1 ha; omega
+          · intro m hm
+            simp only [pnums_append] at hm
+            simp only [hop]
+            have h0 := hr.opened_nonneg
+            rcases List.mem_append.1 hm with hm | hm
+            · rcases List.mem_append.1 hm with hm | hm
+              · have := hlt m hm; omega
+              · have := (implicit_mem m _ _).1 hm; omega
+            · simp [pnums, newPeerStream] at hm; omega
+          · simp only [pcount_append, implicit_count, hop, f1, hcnt]
+            have : pcount [newPeerStream c.uni n] = 1 := by simp [pcount, newPeerStream]
+            rw [this]; omega
+  | localFrame n =>
+    simp only [CS.step, CS.localFrame]
+    split
+    · exact ⟨hr, hl, hnd, hlt, hcnt⟩
+    · exact ⟨hr, local_inv_step c.loc (.wasOpened n) hl, hnd, hlt, hcnt⟩
+  | newLocal =>
+    simp only [CS.step, CS.newLocal]
+    have hl' := local_inv_step c.loc .open hl
+    simp only [Local.step] at hl'
+    split
+    · refine ⟨hr, hl', ?_, ?_, ?_⟩
+      · simp only [pnums_append]; simpa [pnums] using hnd
+      · simp only [pnums_append]; simpa [pnums] using hlt
+      · simp only [pcount_append]; simpa [pcount] using hcnt
+    · exact ⟨hr, hl', hnd, hlt, hcnt⟩
+  | peerMax v => exact ⟨hr, local_inv_step c.loc (.setMax v) hl, hnd, hlt, hcnt⟩
+  | sendMax =>
+    have hr' := remote_inv_step c.rem .appendFrame hr
+    simp only [Remote.step] at hr'
+    have e1 : c.rem.appendFrame.1.opened = c.rem.opened ∧ c.rem.appendFrame.1.closed = c.rem.closed := by
+      unfold Remote.appendFrame; split <;> simp
+    exact ⟨hr', hl, hnd, by simp only [CS.step, e1.1]; exact hlt, by simp only [CS.step, e1.1, e1.2]; exact hcnt⟩
+  | finish p n d =>
+    simp only [CS.step, CS.finish]
+    cases hf : find c.tab p n with
+    | none => exact ⟨hr, hl, hnd, hlt, hcnt⟩
+    | some e =>
+      simp only
+      by_cases h1 : (!e.real) = true
+      · simp only [h1, if_true]; exact ⟨hr, hl, hnd, hlt, hcnt⟩
+      · have h1' : (!e.real) = false := by simpa using h1
+        simp only [h1', Bool.false_eq_true, if_false]
+        obtain ⟨he, hp, hn⟩ := find_some hf
+        by_cases h2 : ((markDone e d).inDone && (markDone e d).outDone) = true
+        · simp only [h2, if_true]
+          cases p with
+          | false =>
+            refine ⟨hr, hl, ?_, ?_, ?_⟩
+            · show (pnums (c.tab.filter fun x => !(x.peer == false && x.num == n))).Nodup
+              rw [pnums_filter_local]; exact hnd
+            · show ∀ m ∈ pnums (c.tab.filter fun x => !(x.peer == false && x.num == n)), 0 ≤ m ∧ m < c.rem.opened
+              rw [pnums_filter_local]; exact hlt
+            · show pcount (c.tab.filter fun x => !(x.peer == false && x.num == n)) = c.rem.opened - c.rem.closed
+              rw [pcount_eq_len, pnums_filter_local, ← pcount_eq_len]; exact hcnt
+          | true =>
+            have hm := mem_pnums_of_find hf
+            have hr' := remote_inv_step c.rem .close hr
+            simp only [Remote.step] at hr'
+            obtain ⟨c1, c2⟩ := close_fields c.rem
+            refine ⟨hr', hl, ?_, ?_, ?_⟩
+            · show (pnums (c.tab.filter fun x => !(x.peer == true && x.num == n))).Nodup
+              rw [pnums_filter_peer]; exact hnd.filter _
+            · show ∀ m ∈ pnums (c.tab.filter fun x => !(x.peer == true && x.num == n)), 0 ≤ m ∧ m < c.rem.close.opened
+              rw [pnums_filter_peer, c1]
+              intro m hm'; exact hlt m (List.mem_filter.1 hm').1
+            · show pcount (c.tab.filter fun x => !(x.peer == true && x.num == n)) = c.rem.close.opened - c.rem.close.closed
+              rw [pcount_eq_len, pnums_filter_peer, length_filter_ne _ n hnd hm, c1, c2, ← pcount_eq_len, hcnt]; omega
+        · have h2' : ((markDone e d).inDone && (markDone e d).outDone) = false := by simpa using h2
+          simp only [h2', Bool.false_eq_true, if_false]
+          have hpm := pnums_map c.tab (fun x => if (x.peer == p && x.num == n) = true then markDone e d else x)
+            (by intro x; by_cases hx : (x.peer == p && x.num == n) = true
+                · rw [if_pos hx]; simp at hx
+                  unfold markDone; split <;> simp [hp, hn, hx.1, hx.2]
+                · rw [if_neg hx]; exact ⟨rfl, rfl⟩)
+          refine ⟨hr, hl, by simp only [hpm]; exact hnd, by simp only [hpm]; exact hlt, ?_⟩
+          simp only [pcount_eq_len, hpm]; rw [← pcount_eq_len]; exact hcnt
+
+theorem cinv_run (ops : List Op) (c : CS) (h : CInv c) : CInv (c.run ops) := by
+  induction ops generalizing c with
+  | nil => simpa [CS.run] using h
+  | cons op rest ih => exact ih _ (cinv_step c op h)
+
+theorem cs_maxOpen_run (ops : List Op) : ∀ (c : CS), (c.run ops).rem.maxOpen = c.rem.maxOpen := by
+  induction ops with
+  | nil => intro c; rfl
+  | cons op rest ih =>
+    intro c
+    simp only [CS.run, List.foldl_cons]
+    rw [show List.foldl CS.step (c.step op) rest = (c.step op).run rest from rfl, ih]
+    cases op with
+    | peerFrame n =>
+      simp only [CS.step, CS.peerFrame]
+      split
+      · split
+        · rfl
+        · exact (open_fields c.rem n).2.1
+      · split
+        · rfl
+        · split
+          · rfl
+          · exact (open_fields c.rem n).2.1
+    | localFrame n => simp only [CS.step, CS.localFrame]; split <;> rfl
+    | newLocal => simp only [CS.step, CS.newLocal]; split <;> rfl
+    | peerMax v => rfl
+    | sendMax => simp only [CS.step, Remote.appendFrame]; split <;> rfl
+    | finish p n d =>
+      simp only [CS.step]
+      rcases finish_rem c p n d with h | ⟨h, _⟩
+      · rw [h]
+      · rw [h]; exact remote_maxOpen_step c.rem .close
+
+/-- **`peer_open_count_le_limit`**: after any history of peer frames (any ids, any order),
+local opens, MAX_STREAMS frames and stream completions, the number of peer-initiated streams in
+the table (implicitly opened ones included) is at most the configured
+Max{Bidi,Uni}RemoteStreams. -/
+theorem peer_open_count_le_limit (uni : Bool) (cfg : Int) (ops : List Op) :
+    (((CS.init uni (maxRemoteStreams cfg)).run ops).peerOpen.length : Int) ≤ maxRemoteStreams cfg := by
+  have hi := cinv_run ops _ (cinv_init uni _ (maxRemoteStreams_range cfg).1)
+  have hm : ((CS.init uni (maxRemoteStreams cfg)).run ops).rem.maxOpen = maxRemoteStreams cfg := by
+    rw [cs_maxOpen_run]; rfl
+  have := hi.count
+  have h1 := hi.rinv.opened_le_max
+  have h2 := hi.rinv.max_le
+  unfold pcount at this
+  unfold CS.peerOpen
+  omega
+
+end Table
+
 
 /-! ## the wire monitor (V-tie): every accepted trace satisfies the clauses of C21 -/
 
